@@ -116,6 +116,7 @@ def run_session(exe, lines, timeout=120, env=None, mem_mb=4096):
         e = dict(os.environ if env is None else env)
         e.setdefault('GOMEMLIMIT', '%dMiB' % mem_mb)
         e.setdefault('GOTRACEBACK', 'single')
+        e.setdefault('GORACE', 'halt_on_error=1')
         try:
             r = subprocess.run(['/bin/sh', '-c', 'ulimit -v %d; exec "$0"' % (mem_mb * 4 * 1024), exe],
                                input=inp, env=e, stdout=subprocess.PIPE, stderr=subprocess.PIPE,
@@ -139,6 +140,8 @@ def run_session(exe, lines, timeout=120, env=None, mem_mb=4096):
         # the process died on `started` (or before producing anything)
         victim = started if started is not None and started not in done else rest[0].split(' ', 1)[0]
         first = [x for x in err.split('\n') if x.strip()][:1]
+        if 'DATA RACE' in err:
+            first = ['DATA RACE ' + ' | '.join(x.strip() for x in err.split('\n') if '.go:' in x)[:600]]
         msg = (how + ' ' + (first[0] if first else '')).strip()
         obs[victim] = '(crash %s)' % msg.encode().hex()
         pending = [l for l in rest if l.split(' ', 1)[0] != victim]
